@@ -763,7 +763,10 @@ fn walk(
             if unmatched > 0 {
                 l.objects_with_decoy += 1;
             }
+            // objects below an always-visible top-level claim (a structured iat) are copied verbatim
+            let verbatim = !p.is_empty() && crate::gen::always_visible(&p[..1].to_vec());
             match decoys {
+                _ if verbatim => {}
                 Some(true) if unmatched == 0 => l.complaints.push(complain("no-decoy-in-object", p, "")),
                 Some(false) if unmatched != 0 => {
                     l.complaints
